@@ -40,13 +40,6 @@ structure SState where
   lAlive : Nat → Bool
   clock : Nat
 
-/-- remaining snapshot of one emission -/
-structure SCursor where
-  e : Nat
-  g : Nat
-  snap : List Nat
-  deriving Repr, Inhabited
-
 def SState.setSig (s : SState) (e g : Nat) (x : Sig) : SState :=
   { s with sig := fun e' g' => if e' = e ∧ g' = g then x else s.sig e' g' }
 
@@ -72,13 +65,15 @@ def delE (e : Nat) (s : SState) : SState :=
   { s with eAlive := fun e' => if e' = e then false else s.eAlive e'
            sig := fun e' g => if e' = e then Sig.empty else s.sig e' g }
 
-def begin (e g : Nat) (s : SState) : SState × SCursor :=
+/-- an emission in progress is identified by (emitter, signal); its position is the rest of
+    the snapshot -/
+def begin (e g : Nat) (s : SState) : SState × Option ((Nat × Nat) × List Nat) :=
   let x := s.sig e g
   let start := match x.outerStart with
     | some t => t
     | none => s.clock
   let x' : Sig := { x with outerStart := some start, depth := x.depth + 1 }
-  (s.setSig e g x', { e := e, g := g, snap := (x.live.filter (fun c => c.uid < start)).map (·.uid) })
+  (s.setSig e g x', some ((e, g), (x.live.filter (fun c => c.uid < start)).map (·.uid)))
 
 /-- next uid of the snapshot that is still live -/
 def nextLive (live : List Conn) : List Nat → Option (Conn × List Nat)
@@ -88,20 +83,20 @@ def nextLive (live : List Conn) : List Nat → Option (Conn × List Nat)
     | some c => some (c, us)
     | none => nextLive live us
 
-def next (s : SState) (k : SCursor) : Step SCursor :=
-  if s.eAlive k.e then
-    match nextLive (s.sig k.e k.g).live k.snap with
+def next (s : SState) (a : Nat × Nat) (snap : List Nat) : Step (List Nat) :=
+  if s.eAlive a.1 then
+    match nextLive (s.sig a.1 a.2).live snap with
     | none => .done
-    | some (c, rest) => .call c.receiver c.slot { k with snap := rest }
+    | some (c, rest) => .call c.receiver c.slot rest
   else .done
 
-def finish (k : SCursor) (s : SState) : SState :=
-  if s.eAlive k.e then
-    let x := s.sig k.e k.g
-    s.setSig k.e k.g { x with depth := x.depth - 1, outerStart := if x.depth ≤ 1 then none else x.outerStart }
+def finish (a : Nat × Nat) (s : SState) : SState :=
+  if s.eAlive a.1 then
+    let x := s.sig a.1 a.2
+    s.setSig a.1 a.2 { x with depth := x.depth - 1, outerStart := if x.depth ≤ 1 then none else x.outerStart }
   else s
 
-def machine : Machine SState SCursor where
+def machine : Machine SState (Nat × Nat) (List Nat) where
   connect := connect
   disconnect := disconnect
   delL := delL
